@@ -203,7 +203,7 @@ theorem fan_deliver (env : Env) (w : World) (m : Msg) : Fan env w (w.deliver env
     simp only
     split
     · obtain ⟨h1, _⟩ := fanOut_offered env (Fields.update m w.globals) w.dests
-        { w with stage := w.stage ++ [Fields.update m w.globals] }
+        { w with stage := w.stage ++ [Fields.update m w.globals], stageAt := w.stageAt ++ [w.dests] }
       simp only [offeredTo, h1, List.filter_append, List.map_append]
       have : (w.dests.map (fun d => (d, Fields.update m w.globals))).filter (fun e => e.1 == d) = [] := by
         apply List.filter_eq_nil_iff.mpr
@@ -218,7 +218,7 @@ theorem fan_deliver (env : Env) (w : World) (m : Msg) : Fan env w (w.deliver env
     simp only
     split
     · obtain ⟨h1, h2⟩ := fanOut_offered env (Fields.update m w.globals) w.dests
-        { w with stage := w.stage ++ [Fields.update m w.globals] }
+        { w with stage := w.stage ++ [Fields.update m w.globals], stageAt := w.stageAt ++ [w.dests] }
       simp only [offeredTo, newStage, h1, h2, List.filter_append, List.map_append, List.drop_left']
       rw [filter_map_mem_nodup w.dests hn d hd]
     · rename_i h; exact absurd ha h
@@ -227,9 +227,9 @@ theorem fan_deliver (env : Env) (w : World) (m : Msg) : Fan env w (w.deliver env
     simp only
     split
     · obtain ⟨acc, h1, _, h3⟩ := fanOut_accepted env (Fields.update m w.globals) w.dests
-        { w with stage := w.stage ++ [Fields.update m w.globals] }
+        { w with stage := w.stage ++ [Fields.update m w.globals], stageAt := w.stageAt ++ [w.dests] }
       obtain ⟨_, h2⟩ := fanOut_offered env (Fields.update m w.globals) w.dests
-        { w with stage := w.stage ++ [Fields.update m w.globals] }
+        { w with stage := w.stage ++ [Fields.update m w.globals], stageAt := w.stageAt ++ [w.dests] }
       simp only [acceptedBy, newStage, h1, h2, List.filter_append, List.map_append, List.drop_left']
       rw [h3 d hh, filter_self_nodup w.dests hn d hd]
       simp
